@@ -307,7 +307,7 @@ theorem pres_rollbackRemoved : Preserves I (rollbackRemoved w) := by
       revert r
       show Preserves I _
       have hundo : ∀ h ∈ (((w.removed.map (·.1)).filterMap s.reg).filter (fun h => h.deleted || h.wip > 0)).map
-          (fun h => { h with deleted := false, wip := 0 }), Known s0 w fresh0 h := by
+          (fun h => { h with deleted := false, wip := if h.bothInUse then 1 else 0 }), Known s0 w fresh0 h := by
         intro h hm
         obtain ⟨g, hg, rfl⟩ := List.mem_map.mp hm
         have hg1 := (List.mem_filter.mp hg).1
